@@ -258,6 +258,15 @@ impl Expr {
                         }
                     }
 
+                    // indexing a `str` yields a new one-character string: there is no slot to write through
+                    if let Expr::Index { lhs_raw: indexed, .. } = lhs.as_ref() {
+                        if let TypeLayout::Native(native_ty) = indexed.for_type(flags)?.disregard_distractors(false) {
+                            if matches!(native_ty, NativeType::Str(..)) {
+                                bail!("cannot reassign using {op} to a character of a `str`")
+                            }
+                        }
+                    }
+
                     // the members a module exports are read-only through any alias of the module
                     if let Expr::DotLookup { lhs: object, .. } = lhs.as_ref() {
                         if let TypeLayout::Module(_) = object.for_type(flags)?.disregard_distractors(false) {
